@@ -180,6 +180,23 @@ struct RefsWorld : World {
 				uintptr_t l; { Sut su; l = (op.c & 2) ? rl.lower() : mpt_refcount_lower(&rl); }
 				if (l0 == 0) { if (rl.value() != 0) fail("counter-wrap", "lower at 0 leaves %lx", (unsigned long) rl.value()); }
 				else if (l != l0 - 1 || rl.value() != l0 - 1) fail("counter-wrong", "lower at %lx gives %lx", (unsigned long) l0, (unsigned long) l);
+				if (op.c & 4) {
+					// a counted object of the library's own kind (reference<T>::type) is copied while it has several holders: the copy is a new
+					// object with the one holder who made it, and assigning content to an object does not change how many hold it
+					typedef reference<io::queue>::type CQ;
+					CQ *src; { Sut su; src = new CQ; } int extra = 1 + (int) (op.c >> 3) % 3; for (int k = 0; k < extra; ++k) { Sut su; src->addref(); }
+					size_t led1 = ledger_live();
+					CQ *dup; { Sut su; dup = new CQ(*src); }
+					{ Sut su; dup->unref(); }
+					if (ledger_live() > led1) fail("never-destroyed", "a copy of a counted object with %d holders is still allocated after its only holder let go", extra + 1);
+					CQ *dst; { Sut su; dst = new CQ; dst->addref(); }      // two holders
+					{ Sut su; *dst = *src; }
+					{ Sut su; dst->unref(); }                                   // one of the two lets go: the object stays (ASan sees the next access otherwise)
+					{ Sut su; dst->push("x", 1); dst->unref(); }
+					for (int k = 0; k <= extra; ++k) { Sut su; src->unref(); }
+					if (ledger_live() > led1 - 1 && ledger_live() != led1 - 1) { /* src allocated before led1 */ }
+					st.hit("probe:counted_object_copied");
+				}
 				outcome = r ? 1 : 0;
 				break;
 			}
